@@ -5,7 +5,8 @@ over a 56-token alphabet, joined with and without spaces; (b) all strings up to 
 22-character alphabet reaching every lexer branch; (c) every single-token deletion, duplication and
 replacement at every position of every corpus program (the suite's one-liners, examples/*.noul);
 (d) nesting ramps of every bracket / lambda / if / for to depth 64; (e) every format-string body up to
-length 5 over `{ } # x 0 9 < a +`. Decoding (evaluated): every integer of the pool in every integer
+length 5 over `{ } # x 0 9 < a +`; (f) digit runs at every integer-width boundary x every suffix character x a following
+character. Decoding (evaluated): every integer of the pool in every integer
 syntax (decimal, 0x 0b 0o, NrDIGITS for every radix 2..36, 64r), q / float / imaginary forms, every
 escape form in '..' ".." B".." R".." F"..".
 Oracle: parse returns Ok or Err - no panic, no hang, no abort; a literal evaluates to the value
@@ -168,6 +169,21 @@ def cases(tier, shard, nshards):
             yield P('F"%s"' % "".join(t), "format-body")
             if n <= 3:
                 yield Case('x := 5; a := 7; F"%s"' % "".join(t), {"f": "format-eval"}, opts={"compact": True})
+    # (f) digit runs at every width boundary x every suffix character x a following character: the literal branches of the
+    #     lexer (radix prefix, q/f/i/j/e suffixes, '.', identifiers glued to numbers) with digit prefixes that do not fit u8/u32/u64/i64/u128
+    runs = [0, 1, 2, 9, 10, 36, 37, 63, 64, 65, 99, 255, 256, 65535, 65536, 2 ** 31 - 1, 2 ** 31, 2 ** 32 - 1, 2 ** 32, 2 ** 32 + 1, 2 ** 32 + 16, 2 ** 32 + 64,
+            2 ** 63 - 1, 2 ** 63, 2 ** 64 - 1, 2 ** 64, 2 ** 64 + 16, 2 ** 128, 10 ** 30, 10 ** 100]
+    sufs = list("abcdefghijklmnopqrstuvwxyzABCDEFGHIJKLMNOPQRSTUVWXYZ._'") + ["", "e-", "e+", ".e", ".."]
+    tails = ["", "0", "1", "9", "a", "z", "A", "Z", "_", "+", "/", ".", ".5", "e1", "q", "r1", " 1"]
+    for v in runs:
+        for zeros in ("", "0", "000"):
+            if zeros and tier == "quick" and v not in (16, 64, 2 ** 32 + 16, 2 ** 32 + 64, 2 ** 32, 2 ** 64):
+                continue
+            if not mine():
+                continue
+            for sfx in sufs:
+                for tl in tails:
+                    yield P("%s%d%s%s" % (zeros, v, sfx, tl), "digit-run")
     # ---- decoding
     E = lambda s, want, fam: Case(s, {"f": fam, "want": want}, opts={"compact": True})
     vals = sorted(set(abs(v) for v in int_values(tier)) | set(range(0, 300 if tier == "quick" else 2000)))
